@@ -166,6 +166,8 @@ def prose_less_breaks(kind, ir, inline_types=True):
             if "default" in p or "typ" not in p or (is_ret and kind == "numpydoc"):
                 return True
         elif kind in ("class", "function", "method"):
+            if "typ" not in p and not is_ret:
+                return True  # an entry with neither type nor prose
             if kind != "class" and not inline_types:
                 # (for the return entry too: `:rtype:` is only written next to `:returns:`)
                 return True  # the type lives in a `:type` line that is only written next to a `:param` line
